@@ -17,7 +17,7 @@ def execute(c):
         return morph.observe_pop(c, rng)
     if c["kind"] == "stem":
         return morph.observe_stem(c, rng)
-    return morph.observe(c, c["motion"] % 2, rng)
+    return morph.observe(c, [0, 1, 10][lib.vid(c) % 3], rng)
 
 
 def keyfn(c, o, why):
